@@ -146,15 +146,16 @@ def project(s1, s2, p, delta=0.0):
 
 
 def box_around_point(p, dist):
+    """Bounding box (lat_min, lon_min, lat_max, lon_max) of all points within dist meters of p."""
     lat, lon = p
-    latr, lonr = radians(lat), radians(lon)
-    # diag_dist = sqrt(2 * dist ** 2)
-    diag_dist = dist
-    lat_t, lon_r = destination_radians(latr, lonr, radians(45), diag_dist)
-    lat_b, lon_l = destination_radians(latr, lonr, radians(225), diag_dist)
-    lat_t, lon_r = degrees(lat_t), degrees(lon_r)
-    lat_b, lon_l = degrees(lat_b), degrees(lon_l)
-    return lat_b, lon_l, lat_t, lon_r
+    latr = radians(lat)
+    d = dist / earth_radius  # angular radius of the spherical cap
+    if not (d < math.pi / 2) or fabs(latr) + d >= math.pi / 2:
+        # Infinite radius, or the cap contains a pole
+        return -90.0, -180.0, 90.0, 180.0
+    dlat = degrees(d)
+    dlon = degrees(asin(sin(d) / cos(latr)))
+    return lat - dlat, lon - dlon, lat + dlat, lon + dlon
 
 
 def interpolate_path(path, dd):
